@@ -67,13 +67,14 @@ def main() -> int:
             mod.run(ctx)
     except MachineryError as e:
         print(f"MACHINERY-ERROR: {e}", file=sys.stderr)
-        ctx.finish()
-        return 2
+        # a violation that was already established (VIOLATION line printed, replay written) stands: a later failure of the
+        # machinery (e.g. a self-test that needs a conforming execution of the code under test) must not turn it into exit 2
+        return 1 if ctx.finish() == 1 else 2
     except Exception:
         traceback.print_exc()
         print("MACHINERY-ERROR: unhandled exception in check (not a property verdict)", file=sys.stderr)
         try:
-            ctx.finish()
+            return 1 if ctx.finish() == 1 else 2
         except Exception:
             pass
         return 2
